@@ -1,6 +1,7 @@
 #![no_main]
-// Coverage-guided tier for C03: the fuzzer's bytes drive the property's proptest
-// strategy (PassThrough rng), the oracle runs inside the target (tvh::props::fuzz_entry).
+// Coverage-guided tier for C03: libFuzzer bytes are decoded structurally into the property's
+// Scenario type, clamped into the generator's domain, and run through the same interpreter and
+// oracle as the random tier (tvh::props::fuzz_entry).
 use libfuzzer_sys::fuzz_target;
 
 fuzz_target!(init: { tvh::engine::install_panic_hook(); }, |data: &[u8]| {
